@@ -260,6 +260,12 @@ def gen_c15(tier, seed):
         start = 0x700000 + 4 * v
         g.add(['wh:500000:%x' % v, 'wb:%x:11' % start, 'wb:%x:22' % (start + 0x18fff), 'wb:%x:33' % (start + 0x19000),
                'wb:%x:44' % max(0x700000, start - 1), 'vd', 'vr', 'vd'], 'allregs')
+    # long runs of in-window writes between two fetches (counts around powers of two): dirty must read true after any
+    # non-zero number of writes
+    for cnt in (1, 255, 256, 257, 65535, 65536, 65537, 131072) + ((1 << 20, (1 << 24)) if tier != 'quick' else ()):
+        for v in (0, 0x1234):
+            start = 0x700000 + 4 * v
+            g.add(['wh:500000:%x' % v, 'vr', 'vd', 'wn:%x:%x' % (start + 0x40, cnt), 'vd', 'vr', 'vd', 'wn:%x:%x' % (start + 0x19000, cnt), 'vd'], 'write-count')
     return g.result('Histories of display-start changes (halfword, split byte, low-byte-only, word), writes of all widths at '
                     'the window edges +-6 and at random RAM addresses, dirty polls and frame fetches; plus a sweep of '
                     'display-start values with marker bytes at both window edges.')
@@ -328,6 +334,29 @@ def gen_c16(tier, seed):
                 ops += ['ww:%x:%x' % (0x700000 + (r.randrange(0x100000) & ~3), r.randrange(1 << 32))]
         ops += ['ng']
         g.add(ops, 'reset')
+    # restoring constant images (all zero, all ones, one non-zero byte) over whatever NVRAM holds
+    for i in range(8 if tier == 'quick' else 300):
+        ops = ['rs:2']
+        for _ in range(r.randrange(2, 5)):
+            c = r.random()
+            if c < 0.4:
+                img = '00' * 8192
+            elif c < 0.6:
+                img = 'ff' * 8192
+            elif c < 0.8:
+                k = r.randrange(8192)
+                img = '00' * k + '%02x' % r.randrange(1, 256) + '00' * (8191 - k)
+            else:
+                img = None
+            if img is None:
+                ops += ['ns:%x:2000' % r.randrange(1 << 32)]
+            else:
+                ops += ['nx:' + img]
+            a = 0x600000 + r.randrange(0x2000)
+            ops += ['ng', 'rb:600000', 'rb:601fff', 'rb:%x' % a]
+            if r.random() < 0.4:
+                ops += ['wb:%x:%x' % (a, r.randrange(256)), 'ng']
+        g.add(ops, 'constant-images')
     return g.result('Histories of reset(version) for versions 1, 2 and other numbers in any order, interleaved with guest '
                     'execution of the firmware (1 to 1500 steps), guest ROM-write attempts, guest NVRAM/RAM writes and host '
                     'NVRAM restore/snapshot calls; registers, ROM digest, NVRAM digest compared after every prefix.')
